@@ -256,6 +256,18 @@ def prove(prop: str, coqchk: bool = False) -> dict:
 # ------------------------------------------------------------------------------------
 # model runner (extracted OCaml)
 # ------------------------------------------------------------------------------------
+def _big_stack() -> None:
+    """the extracted functions are not tail-recursive: give the driver process the largest stack the
+    system allows (native OCaml code uses the system stack), so that long strings do not overflow it"""
+    import resource
+    try:
+        soft, hard = resource.getrlimit(resource.RLIMIT_STACK)
+        want = hard if hard != resource.RLIM_INFINITY else resource.RLIM_INFINITY
+        resource.setrlimit(resource.RLIMIT_STACK, (want, hard))
+    except Exception:
+        pass
+
+
 def run_model(cases: list[Any], nproc: int = 8, driver: str = "core") -> list[Any]:
     """cases: list of sx values (nested int lists).  Returns the list of results."""
     if not cases:
@@ -269,7 +281,8 @@ def run_model(cases: list[Any], nproc: int = 8, driver: str = "core") -> list[An
     for idxs in chunks:
         data = "".join(f"{i} {sx_text(cases[i])}\n" for i in idxs)
         p = subprocess.Popen([DRIVER], stdin=subprocess.PIPE, stdout=subprocess.PIPE,
-                             text=True, env={**os.environ, "OCAMLRUNPARAM": "l=8G"})
+                             text=True, env={**os.environ, "OCAMLRUNPARAM": "l=8G"},
+                             preexec_fn=_big_stack)
         procs.append((p, data))
     # feed sequentially via communicate in threads to avoid pipe deadlock
     import threading
